@@ -4,6 +4,7 @@ import (
 	"go/ast"
 	"go/token"
 	"go/types"
+	"sync"
 
 	"golang.org/x/tools/go/packages"
 	"golang.org/x/tools/go/types/typeutil"
@@ -69,13 +70,82 @@ func isBuiltinCall(info *types.Info, n ast.Node, name string, argField *types.Va
 	if argField == nil {
 		return true
 	}
-	return len(call.Args) > 0 && fieldOfSel(info, call.Args[0]) == argField
+	return len(call.Args) > 0 && fieldOrCopy(info, call.Args[0]) == argField
 }
 
 // isRecvFromField: n is <-x.f for the given field.
 func isRecvFromField(info *types.Info, n ast.Node, field *types.Var) bool {
 	u, ok := n.(*ast.UnaryExpr)
-	return ok && u.Op == token.ARROW && fieldOfSel(info, u.X) == field
+	return ok && u.Op == token.ARROW && fieldOrCopy(info, u.X) == field
+}
+
+// Local copies of struct fields: a local variable that is assigned from a field
+// (x := s.f) or stored into it (s.f = x) and has no other field partner stands
+// for that field where a channel or mutex is closed, received from or measured.
+var (
+	copyMu      sync.Mutex
+	fieldCopies = map[*types.Info]map[types.Object]*types.Var{}
+)
+
+func registerFieldCopies(pk *packages.Package) {
+	copyMu.Lock()
+	defer copyMu.Unlock()
+	info := pk.TypesInfo
+	if _, done := fieldCopies[info]; done {
+		return
+	}
+	m := map[types.Object]*types.Var{}
+	bad := map[types.Object]bool{}
+	note := func(id *ast.Ident, f *types.Var) {
+		o := info.ObjectOf(id)
+		if o == nil || f == nil {
+			return
+		}
+		if v, ok := o.(*types.Var); !ok || v.IsField() || v.Parent() == pk.Types.Scope() {
+			return
+		}
+		if prev, ok := m[o]; ok && prev != f {
+			bad[o] = true
+		}
+		m[o] = f
+	}
+	for _, file := range pk.Syntax {
+		ast.Inspect(file, func(n ast.Node) bool {
+			as, ok := n.(*ast.AssignStmt)
+			if !ok || len(as.Lhs) != len(as.Rhs) {
+				return true
+			}
+			for i := range as.Lhs {
+				l, r := ast.Unparen(as.Lhs[i]), ast.Unparen(as.Rhs[i])
+				if id, ok := l.(*ast.Ident); ok {
+					note(id, fieldOfSel(info, r))
+				}
+				if id, ok := r.(*ast.Ident); ok {
+					note(id, fieldOfSel(info, l))
+				}
+			}
+			return true
+		})
+	}
+	for o := range bad {
+		delete(m, o)
+	}
+	fieldCopies[info] = m
+}
+
+// fieldOrCopy: the field selected by x, or the field x is a local copy of.
+func fieldOrCopy(info *types.Info, x ast.Expr) *types.Var {
+	if f := fieldOfSel(info, x); f != nil {
+		return f
+	}
+	if id, ok := ast.Unparen(x).(*ast.Ident); ok {
+		copyMu.Lock()
+		defer copyMu.Unlock()
+		if m := fieldCopies[info]; m != nil {
+			return m[info.ObjectOf(id)]
+		}
+	}
+	return nil
 }
 
 // mustField resolves a struct field or records a fatal anchor failure.
